@@ -31,6 +31,9 @@ use worterbuch_common::{
 
 pub const TIMESTAMP_FILE_NAME: &str = "last-persisted";
 
+#[cfg(feature = "verif")]
+pub(crate) use json::{load as verif_json_load, synchronous as verif_json_synchronous};
+
 lazy_static! {
     static ref PERSISTENCE_LOCKED: AtomicBool = AtomicBool::new(true);
 }
